@@ -83,6 +83,8 @@ pub struct Ctx {
     pub placeholder: f64,
     /// rng-tag mode: from_f64(k * 2^-53), 1 <= k <= rng_tags, becomes Var(x{k-1})
     pub rng_tags: usize,
+    /// per node: does its cone contain a variable or an opaque narrowing? (lazy cache)
+    pub has_var: Vec<Option<bool>>,
 }
 
 impl Default for Ctx {
@@ -99,6 +101,7 @@ impl Default for Ctx {
             from_f64_consts: vec![],
             placeholder: 0.5,
             rng_tags: 0,
+            has_var: vec![],
         }
     }
 }
@@ -317,11 +320,55 @@ impl<'a> Neg for &'a Sym {
     }
 }
 
+fn node_has_var(c: &mut Ctx, i: u32) -> bool {
+    if c.has_var.len() < c.nodes.len() {
+        c.has_var.resize(c.nodes.len(), None);
+    }
+    if let Some(b) = c.has_var[i as usize] {
+        return b;
+    }
+    let kids: Vec<u32> = match &c.nodes[i as usize] {
+        Node::Var(_) | Node::Narrow(..) => {
+            c.has_var[i as usize] = Some(true);
+            return true;
+        }
+        Node::Add(a, b) | Node::Sub(a, b) | Node::Mul(a, b) | Node::Div(a, b) | Node::PowF(a, b) => vec![*a, *b],
+        Node::Neg(a) | Node::Sqrt(a) | Node::Abs(a) | Node::Pow(a, _) | Node::Ln(a) | Node::Exp(a) | Node::Cos(a) | Node::Sin(a) => vec![*a],
+        _ => vec![],
+    };
+    let mut r = false;
+    for k in kids {
+        if node_has_var(c, k) {
+            r = true;
+            break;
+        }
+    }
+    c.has_var[i as usize] = Some(r);
+    r
+}
+
 /// decide a symbolic atom: follow the prefix, else take `true` and extend
 fn decide(atom: Atom) -> bool {
     CTX.with(|c| {
         let mut c = c.borrow_mut();
         c.pending_narrow.clear();
+        // closed terms (no variable in either cone, e.g. an irrational power of a constant): the comparison is
+        // decided numerically when the two values are clearly separated, and no branch is recorded
+        if c.mode == Mode::Real {
+            let [l, r] = atom.nodes();
+            if !node_has_var(&mut c, l) && !node_has_var(&mut c, r) {
+                let env = |_: &str| f64::NAN;
+                let nar = |_: &[f64], _: u64| f64::NAN;
+                let (x, y) = (eval_f64(&c.nodes, l, &env, &nar), eval_f64(&c.nodes, r, &env, &nar));
+                if x.is_finite() && y.is_finite() && (x - y).abs() > 1e-9 * (1.0 + x.abs().max(y.abs())) {
+                    return match atom {
+                        Atom::Lt(..) => x < y,
+                        Atom::Le(..) => x <= y,
+                        Atom::Eq(..) => false,
+                    };
+                }
+            }
+        }
         // the same atom has the same truth value throughout one execution
         if let Some((_, d)) = c.taken.iter().find(|(a, _)| *a == atom) {
             return *d;
